@@ -93,7 +93,7 @@ structure Topic where
   deleted : Bool := false
   readOnly : Bool := false
   loaded : Bool := false                    -- topicStatusLoaded: "online" announced
-  hasSupd : Bool := false                   -- Topic.supd exists: set by initTopicGrp (load), NOT by initTopicNewGrp
+  hasSupd : Bool := true                    -- Topic.supd exists: created by initTopicGrp (load) and initTopicNewGrp
   deriving DecidableEq, Repr
 
 structure User where
